@@ -1257,6 +1257,10 @@ class _BoundNative:
             return o.get(k, args[1] if len(args) > 1 else None)
         if isinstance(o, dict) and n in ("items", "keys", "values"):
             return list(getattr(o, n)())
+        if isinstance(o, dict) and n == "copy":
+            return dict(o)
+        if isinstance(o, list) and n == "copy":
+            return list(o)
         if isinstance(o, str) and n == "format":
             if any(is_sym(a) or isinstance(a, SRec) for a in args):
                 return "<formatted>"
